@@ -17,15 +17,20 @@ META = {
              "entered the engine. not_holds_of_firstBad refutes the statement from a concrete shape when a program is unsafe. The programs "
              "are extracted from the AST on every run; the model's prediction (outcome class, error code and message, counters, store "
              "change) is compared with the real handler on generated requests. PROVED: the validation prefix of every handler and the "
-             "defer discipline, plus three engine facts that are part of the programs as `need` steps and decided by the same checker "
+             "defer discipline, plus four engine facts that are part of the programs as `need` steps and decided by the same checker "
              "(negative paging offset unless the beacon clamps it; a non-writing handler must know the swamp exists before SummonSwamp "
-             "creates it; a creating handler must exclude keys the V2 writer refuses) - a live engine-level defect of these kinds makes "
+             "creates it; a creating handler must exclude keys the V2 writer refuses; Lock must hand the locker its caller's context, otherwise a request for a held "
+             "key cannot be ended by its caller) - a live engine-level defect of these kinds makes "
              "the verdict `violated`, never `holds`. NOT PROVED (hypothesis EngineSafe of `defined`, tested on every request incl. an "
              "injected panic at SummonSwamp): apart from those cases the engine below the first SummonSwamp answers instead of panicking."),
     "note": ("Trusted: Lean kernel (propext, Classical.choice, Quot.sound); extract/c26.go (statement shapes it accepts; anything else "
              "makes the handler unrecognised and the verdict undetermined); harness/c26.go (shape abstraction of a request, snapshot "
              "comparison). Assumed and only tested: the engine below the prefix does not panic; repeated message fields never hold nil "
-             "(protobuf-go decoding)."),
+             "(protobuf-go decoding). Every unary request carries a client context with a deadline (10 s; Lock on a held key: 400 ms); `hang` "
+             "means: not back 50 s (Lock: 5 s) after that context ended. A granted business lock is unlocked at once with the returned ID, so no "
+             "request waits for an earlier one; Lock TTL boundary values (0, 1, 1000, 1001, -1, MinInt64, MaxInt64, the clamp limit and limit+1) "
+             "are explicit requests that must be granted (`expect=resp`, and for TTL > 10 s the lock must still be there when it is unlocked); "
+             "Lock on a key held by another caller must come back with an error once its own context has ended (`expect=err`)."),
     "design_ref": "§8 C26",
 }
 
@@ -63,7 +68,7 @@ def prefix_keys(facts):
     return out
 
 
-def compatible(op, impl, model, pkeys):
+def compatible(op, impl, model, pkeys, flags=()):
     """model prediction vs implementation reply, field by field"""
     if impl == model:
         return True
@@ -72,6 +77,8 @@ def compatible(op, impl, model, pkeys):
     rpc = op.split(" ")[1]
     ci, fi = fields(impl)
     cm, fm = fields(model)
+    if ci == "hang" and any(f.endswith("-ctxignored") for f in flags):
+        return True          # the recorded hazard itself: the handler waits on a context detached from its caller's
     for k in ("p", "lock", "vig", "close"):
         if fi.get(k) != fm.get(k):
             return False
@@ -110,7 +117,16 @@ def impl_violation(op, line):
     if cls in ("nilnil", "panic"):
         return "%s: %s" % (rpc, SPEC_TEXT[cls])
     if cls == "hang":
-        return "%s never returned (it keeps the system lock, so the server can no longer shut down)" % rpc
+        if kv.get("lock") == "1":
+            return "%s never returned, not even after its caller's context had ended (it keeps the system lock, so the server can no longer shut down)" % rpc
+        return "%s never returned, not even after its caller's context had ended (the handler's goroutine stays behind)" % rpc
+    if cls == "lostlock":
+        return "%s granted a lock with a TTL of more than ten seconds that was already gone when it was given back at once" % rpc
+    lab = op.rsplit(" | m=", 1)[1] if " | m=" in op else ""
+    if lab.endswith(":expect=resp") and cls != "resp":
+        return "%s with %s must be granted (TTL is clamped to 1 s .. the largest representable duration), got: %s" % (rpc, lab.split(":")[0], cls)
+    if lab.endswith(":expect=err") and not cls.startswith("err "):
+        return "%s on a key held by another caller must come back with an error once its own context has ended, got: %s" % (rpc, cls)
     if kv.get("store") == "corrupt":
         return "%s damaged a stored treasure the request did not address" % rpc
     if kv.get("store") == "lostack":
@@ -151,7 +167,7 @@ def shape_tag(op):
 def engine_class(line):
     """short tag of what went wrong, for findings below the validation prefix"""
     cls, kv = fields(line)
-    if cls in ("nilnil", "panic", "hang"):
+    if cls in ("nilnil", "panic", "hang", "lostlock"):
         return cls
     if kv.get("store") == "corrupt":
         return "corrupt"
@@ -197,7 +213,7 @@ def run(ctx):
                 op = c.ops[i] if i < len(c.ops) else ""
                 a = c.impl[i] if i < len(c.impl) else "<missing>"
                 b = c.model[i] if i < len(c.model) else "<missing>"
-                if not compatible(op, a, b, pk):
+                if not compatible(op, a, b, pk, c.flags[i] if i < len(c.flags) else ()):
                     still.append(i)
             c.mismatch = still
             # independent Spec oracle over every implementation reply.  A violation on a line the model
@@ -206,7 +222,7 @@ def run(ctx):
             # a line the model flags because of an engine fact (`need` step) counts as reproduced only where the
             # implementation's own reply shows the violation (e.g. only the legacy engine persists the empty swamp)
             for i, fl in enumerate(c.flags):
-                if fl and any(fl[0].endswith(t) for t in ("-missingswamp", "-negfrom", "-badkey")):
+                if fl and any(fl[0].endswith(t) for t in ("-missingswamp", "-negfrom", "-badkey", "-ctxignored")):
                     op = c.ops[i] if i < len(c.ops) else ""
                     if i < len(c.impl) and not impl_violation(op, c.impl[i]):
                         c.flags[i] = []
